@@ -505,10 +505,16 @@ def _instantiate_param_obj(paramobj, owner=None):
     p.watchers = {}
 
     # shallow-copy any mutable slot values other than the actual default
+    # (read from the original: a __getstate__ written for pickling, such as
+    # Path's, may have blanked a slot of the copy)
     for s in p.__class__._all_slots_:
-        v = getattr(p, s)
+        if s in ('owner', 'watchers'):
+            continue
+        v = getattr(paramobj, s)
         if _is_mutable_container(v) and s != "default":
             setattr(p, s, copy.copy(v))
+        elif getattr(p, s) is not v:
+            setattr(p, s, v)
     return p
 
 
